@@ -143,3 +143,76 @@ def tochannel_handout_after_sync_source_ended(case, mismatch):
 
 
 PREDICATES['tochannel_handout_after_sync_source_ended'] = tochannel_handout_after_sync_source_ended
+
+
+def _rl_state(evs, upto=None):
+    """replays a rate-limit trace: emitted items, passed items per key (with emission / reception times), terminals"""
+    emitted, passed, src_term, out_term = {}, {}, None, None
+    for e in evs[:upto]:
+        if e['e'] == 'emit':
+            if e['k'] == 'N':
+                emitted[e['v']] = dict(key=e['o'], u=e['u'])
+            else:
+                src_term = (e['k'], e['u'])
+        elif e['e'] == 'recv':
+            if e['k'] == 'N':
+                k = emitted[e['v']]['key']
+                passed.setdefault(k, []).append(dict(id=e['v'], eu=emitted[e['v']]['u'], ru=e['u']))
+            else:
+                out_term = e['k']
+    return emitted, passed, src_term, out_term
+
+
+def native_limiter_one_late_tick(case, mismatch):
+    """native limiter (windows delimited by a time.Ticker): the run is rejected at a value reception by the quota clause ONLY - order and
+    no-duplicate hold, the value was emitted - and the excess is what ONE late tick explains: the items passed for the key in every span
+    ending here stay within quota * (floor(L / window) + 3) (the clause of the property has + 2)."""
+    evs = case.get('events') or []
+    ev = mismatch.get('event') or {}
+    if not evs or evs[0].get('s') != 'native' or ev.get('e') != 'recv' or ev.get('k') != 'N':
+        return False
+    window, quota = evs[0]['v'], evs[0]['i']
+    at = next((i for i, e in enumerate(evs) if e.get('e') == 'recv' and e.get('k') == 'N' and e.get('v') == ev.get('v') and e.get('u') == ev.get('u')), None)
+    if at is None:
+        return False
+    emitted, passed, src_term, out_term = _rl_state(evs, at)
+    if out_term is not None or ev['v'] not in emitted:
+        return False
+    key = emitted[ev['v']]['key']
+    pk = passed.get(key, [])
+    if pk and pk[-1]['id'] >= ev['v']:
+        return False                      # order / duplicate clause: not this finding
+    np_ = pk + [dict(id=ev['v'], eu=emitted[ev['v']]['u'], ru=ev['u'])]
+    return all((len(np_) - a) <= quota * (((ev['u'] - np_[a]['eu']) // window) + 3) for a in range(len(np_)))
+
+
+PREDICATES['native_limiter_one_late_tick'] = native_limiter_one_late_tick
+
+
+def native_limiter_fresh_window_lost_at_completion(case, mismatch):
+    """native limiter: the run is rejected at its end although the terminal WAS propagated: some key passed fewer than min(n, quota) items, and
+    every item of that key that did not pass was emitted less than one window before the source terminated (it sat in the backlog of a
+    window that had just been opened when the completion arrived - the unicast known finding, seen through the limiter)."""
+    evs = case.get('events') or []
+    ev = mismatch.get('event') or {}
+    if not evs or evs[0].get('s') != 'native' or ev.get('e') != 'end':
+        return False
+    window, quota = evs[0]['v'], evs[0]['i']
+    emitted, passed, src_term, out_term = _rl_state(evs)
+    if src_term is None or out_term != src_term[0]:
+        return False
+    bad = False
+    for key in {v['key'] for v in emitted.values()}:
+        ids = sorted(i for i, v in emitted.items() if v['key'] == key)
+        got = {p['id'] for p in passed.get(key, [])}
+        need = min(len(ids), quota)
+        if len(got) >= need:
+            continue
+        bad = True
+        fresh = [i for i in ids if i not in got and src_term[1] - emitted[i]['u'] < window]
+        if len(fresh) < need - len(got):
+            return False      # items are missing that had been emitted a full window before the end: not this finding
+    return bad
+
+
+PREDICATES['native_limiter_fresh_window_lost_at_completion'] = native_limiter_fresh_window_lost_at_completion
